@@ -166,8 +166,13 @@ func (p *provider) CreateScope(ctx context.Context) (Scope, error) {
 		return nil, err
 	}
 
-	// Track scope
+	// Track scope; a provider closed in the meantime must not be left with a live scope
 	p.scopesMu.Lock()
+	if p.scopes == nil {
+		p.scopesMu.Unlock()
+		_ = s.Close()
+		return nil, ErrProviderDisposed
+	}
 	p.scopes[s] = struct{}{}
 	p.scopesMu.Unlock()
 
@@ -211,11 +216,11 @@ func (p *provider) Close() error {
 
 	// Close root scope
 	if p.rootScope != nil {
+		// The pointer is kept: operations that passed the disposed check
+		// concurrently find a closed scope instead of a nil one.
 		if err := p.rootScope.Close(); err != nil {
 			errors = append(errors, fmt.Errorf("root scope: %w", err))
 		}
-
-		p.rootScope = nil
 	}
 
 	// Dispose all singleton disposables
